@@ -6,7 +6,7 @@ From FV Require StoreP StoreB StoreQ SrcFragments TieB TBuffer TFleet TBelt Kern
 Extraction Language OCaml.
 Separate Extraction StoreP.step StoreP.init StoreP.run_trace
   StoreB.step StoreB.init StoreB.run_trace
-  TieB.lensB TieB.lensP SrcFragments TBuffer.tstep TBuffer.tinit TFleet.fstep TFleet.finit TBelt.bstep TBelt.binit
+  TieB.lensB TieB.lensP SrcFragments TBuffer.tstep TBuffer.tinit TFleet.fstep TFleet.finit TBelt.bstep TBelt.binit TBelt.gate
   StoreQ.qstep StoreQ.qinit StoreQ.qrun_trace
   Factory.mk_world Factory.run_until Factory.finalize_node Factory.finalize_edge Factory.fstep
   World.node0 World.edge0 Kernel.res_init
